@@ -12,6 +12,9 @@ class Summary(dict):
     def absorb_engine(s, eng, q0=0, t0=0.0):
         s['queries'] += eng.queries - q0; s['solver_s'] += eng.qtime - t0
         s['fns'] |= eng.fn_used; s['models'] |= eng.models_used
+        xc = s.setdefault('xcheck', {'checked': 0, 'agree': 0, 'unknown': 0, 'disagree': []})
+        for k in ('checked', 'agree', 'unknown'): xc[k] += eng.xcheck[k]
+        xc['disagree'] += eng.xcheck['disagree'][:3]
     def sample(s, x, cap=6):
         if len(s['samples']) < cap: s['samples'].append(x)
     def inconclusive(s, t):
